@@ -90,7 +90,8 @@ fn run_cli(ctx: &mut Ctx) {
 }
 
 fn run_subset(ctx: &mut Ctx) {
-    let big = gen::chance(1, if ctx.tier == crate::harness::Tier::Thorough { 50 } else { 600 });
+    // (a run of adjacent chunks of more than a MiB as stored needs a source of MiBs)
+    let big = gen::chance(1, if ctx.tier == crate::harness::Tier::Thorough { 50 } else { 150 });
     // a third of the archives comes from the independent encoder: gaps, permuted storage and
     // (here only) descriptors listed in an order other than first occurrence
     let m = if gen::chance(1, 3) {
@@ -151,8 +152,17 @@ fn run_subset(ctx: &mut Ctx) {
         ctx.verdict.sample = Some(desc.clone());
     }
     let want_items = fetch.len();
+    // a request that carries a (generous) timeout is fetched exactly like one without
+    let with_timeout = gen::chance(1, 3);
+    if with_timeout {
+        simkit::count("probe:benign-http-timeout");
+    }
     let r = run_async(async move {
-        let reader = HttpReader::from_url(URL.parse().unwrap());
+        let reader = if with_timeout {
+            HttpReader::from_request(reqwest::Client::new().get(URL).timeout(std::time::Duration::from_secs(86_400)))
+        } else {
+            HttpReader::from_url(URL.parse().unwrap())
+        };
         let mut ar = Archive::try_init(reader).await.map_err(|_| "try_init".to_string())?;
         let mut st = ar.chunk_stream(&index);
         let mut got = 0usize;
